@@ -523,7 +523,7 @@ pub fn run(ctx: &Ctx) -> i32 {
         Finish {
             ctx,
             level: "exploration",
-            rule: "(monitor-*) the history generators of C03, C08, C11, C15, C05 and C14 re-run over a lock implementation that records every acquisition requested while the lock is already held (shared-in-shared included); (snapshots) dedicated boundary-clock histories in which every parent Announce carries a version number encoded redundantly in all fields of all data sets it touches, with parent_ds / current_ds / time_properties_ds read at every outermost exclusive release and required to be homogeneous, each by itself and (while parentDS shows a versioned parent) across the three; a third of the cases with path trace on and parent paths of 1..200 entries (frames beyond 1024 bytes); (schedule-injection) real threads over an RwLock-based lock that parks set_clock_quality / set_slave_only after each of their lock releases while BMCA rounds run, compared with both serial orders; (daemon) the real statime daemon as a two-port boundary clock in a private network namespace: for 0.4-1.2 s both ports are loaded at the same time with generated mixes of traffic that takes the instance-state lock (parent Announces with changing contents and TLVs to forward, Sync/Follow_Up, Delay_Resp, Delay_Req from several requesters, Announces of worse masters, Pdelay_Req) while BMCA runs every 125 ms and the observation socket is polled; afterwards the daemon must be alive, announce, answer a fresh Delay_Req and the observation socket. Non-trivial (monitor) = >= 2 exclusive and >= 10 total acquisitions in the history; (snapshots) >= 1 S1 update through handle_announce and > 2 snapshots; distinct by history.",
+            rule: "(monitor-*) the history generators of C03, C08, C11, C15, C05 and C14 re-run over a lock implementation that records every acquisition requested while the lock is already held (shared-in-shared included); (snapshots) dedicated boundary-clock histories in which every parent Announce carries a version number encoded redundantly in all fields of all data sets it touches, with parent_ds / current_ds / time_properties_ds read at every outermost exclusive release and required to be homogeneous, each by itself and (while parentDS shows a versioned parent) across the three; a third of the cases with path trace on and parent paths of 1..200 entries (frames beyond 1024 bytes); (schedule-injection) real threads over an RwLock-based lock that parks set_clock_quality / set_slave_only after each of their lock releases while BMCA rounds run, compared with both serial orders; (daemon) the real statime daemon as a two-port boundary clock in a private network namespace: in half of the cases first a BMCA-decided hand-over of the slave role to the other port and back (a better master appearing there for 0.5-0.9 s), observed every 15 ms - each observation must be of one instant (slave ports vs parentDS vs stepsRemoved); then for 0.4-1.2 s both ports are loaded at the same time with generated mixes of traffic that takes the instance-state lock (parent Announces with changing contents and TLVs to forward, Sync/Follow_Up, Delay_Resp, Delay_Req from several requesters, Announces of worse masters, Pdelay_Req) while BMCA runs every 125 ms and the observation socket is polled; afterwards the daemon must be alive, announce, answer a fresh Delay_Req and the observation socket. Non-trivial (monitor) = >= 2 exclusive and >= 10 total acquisitions in the history; (snapshots) >= 1 S1 update through handle_announce and > 2 snapshots; distinct by history.",
             assumptions: vec![
                 "a thread can only interleave between lock acquisitions, so release points enumerate exactly the states another thread can observe; OS scheduling is not otherwise controlled".into(),
                 "BMCA cannot run concurrently with port handlers (type state), so only instance-level setters and observers are interleaved with it".into(),
